@@ -196,5 +196,30 @@ class Ring(Circle):
     thick: float = 0.0
 
 
-VERIF_CLASSES = [Vec, Pin, Item, Holder, Base0, Mid, Leaf, Port, ShapeBase, Circle, Sheet, Ring]
-VERIF_ORMATIC = {"alternative_mappings": [VecMapping, PinMapping, ShapeBaseMapping], "type_mappings": {Money: MoneyType}}
+@dataclass(eq=False)
+class Square(ShapeBase):
+    """a sub-class of the alternatively mapped class that is alternatively mapped itself; its mapping derives from the
+    mapping of its parent (the ParentBaseMapping / ChildBaseMapping pattern)"""
+    side: int = 0
+
+
+@dataclass
+class SquareMapping(ShapeBaseMapping, AlternativeMapping[Square]):
+    side: int = 0
+
+    @classmethod
+    def create_instance(cls, obj: Square) -> Self:
+        return cls(obj.uid, "L:" + obj.name, obj.turn ^ 1, list(reversed(obj.ports)), obj.side ^ 1)
+
+    def create_from_dao(self) -> Square:
+        return Square(self.uid, self.label[2:], self.turn ^ 1, list(reversed(self.ports)), side=self.side ^ 1)
+
+
+@dataclass(eq=False)
+class Tile(Square):
+    """a normally mapped class below the two mappings"""
+    glaze: str = ""
+
+
+VERIF_CLASSES = [Vec, Pin, Item, Holder, Base0, Mid, Leaf, Port, ShapeBase, Circle, Sheet, Ring, Square, Tile]
+VERIF_ORMATIC = {"alternative_mappings": [VecMapping, PinMapping, ShapeBaseMapping, SquareMapping], "type_mappings": {Money: MoneyType}}
